@@ -24,3 +24,16 @@ def varKey (nv t j : Nat) : Key := ((simulationKeys (carried t) nv).2).getD j []
 def agentKey (nv nAgents t j i : Nat) : Key := (split (varKey nv t j) nAgents).getD i []
 
 end Lcm
+
+namespace Lcm
+
+/-- `searchsorted(cumsum(p), r)` (side = left): index of the first cumulative sum that reaches `r` -/
+def searchCum : List Rat → Rat → Rat → Nat
+  | [], _, _ => 0
+  | p :: ps, acc, r => if r ≤ acc + p then 0 else 1 + searchCum ps (acc + p) r
+
+/-- the sampler behind `jax.random.choice(key, a, p=p)`: `r = total * (1 - uniform(key))` lies in
+`(0, total]`, the label is the first index whose cumulative probability reaches `r` -/
+def choiceOfUniform (p : List Rat) (r : Rat) : Nat := searchCum p 0 r
+
+end Lcm
